@@ -13,6 +13,7 @@ import os
 import sys
 
 mode, work, result_path = sys.argv[1], sys.argv[2], sys.argv[3]
+SHARD, SHARDS = (int(sys.argv[4]), int(sys.argv[5])) if len(sys.argv) > 5 else (0, 1)
 SO = os.environ.get("VERIF_BUILD", "/verif/.build") + "/pyext/release/libbourse.so"
 spec = importlib.util.spec_from_file_location("core", SO)
 core = importlib.util.module_from_spec(spec)
@@ -100,8 +101,8 @@ def run_ob(tr):
     calls = tr["calls"]
     before = None
     for k, c in enumerate(calls):
-        if k == len(calls) - 1:
-            before = ob_state(ob)
+        # every getter is called between any two calls (a binding that caches must survive that)
+        before = ob_state(ob)
         ret, exc = ob_call(ob, clock, k, c)
     count("ob_calls", len(calls))
     exp = tr["exp"]
@@ -129,6 +130,17 @@ def run_ob(tr):
             count("rust_snapshots_loaded")
             if st2 != st:
                 fail("python/snapshot-written-by-rust-loads-differently-in-python", "%r vs %r" % (st2, st), tr)
+            else:
+                # ... and stays indistinguishable when driven further: sweep the loaded book
+                ob2.enable_trading()
+                t2 = clock[0] + 1
+                ob2.set_time(t2)
+                ob2.place_order(True, ob2.ask_vol() + 1, 9)
+                ob2.set_time(t2 + 1)
+                ob2.place_order(False, ob2.bid_vol() + 1, 9)
+                got2 = tl(ob2.get_trades())[len(st["trades"]):]
+                if [t[1:] for t in got2] != [t[1:] for t in exp["drain"]]:
+                    fail("python/snapshot-written-by-rust-executes-differently-in-python", "sweeping the loaded book executes %r, Rust core %r" % (got2, exp["drain"]), tr)
         except Exception as e:  # noqa: BLE001
             fail("python/snapshot-written-by-rust-rejected-by-python", repr(e), tr)
     if tr.get("snap_out"):
@@ -199,8 +211,8 @@ def replay_env(tr):
     before = None
     ret = exc = None
     for k, c in enumerate(calls):
-        if k == len(calls) - 1:
-            before = env_state(env)
+        # every getter is called between any two calls (a binding that caches must survive that)
+        before = env_state(env)
         ret, exc = env_call(env, c)
     return env, ret, exc, before
 
@@ -379,7 +391,9 @@ def main():
     n = calls = 0
     dp = load_data_processing() if mode == "c19" else None
     with open(work + "/traces.jsonl") as f:
-        for line in f:
+        for ln, line in enumerate(f):
+            if ln % SHARDS != SHARD:
+                continue
             tr = json.loads(line)
             n += 1
             calls += len(tr["calls"])
